@@ -46,10 +46,13 @@ let script_of (v : string) : z list list list =
   List.map (fun b -> List.map (fun l -> List.map z_of_int (unhex l)) (nonempty (split '|' b))) (split '/' v)
 
 let cur_script : z list list list ref = ref []
+let cur_elf : z list ref = ref []
 
 let parse_op (s : string) : op =
   match split ':' s with
   | [ "run"; fuel ] -> ORun (zx fuel, !cur_script)
+  | [ "load"; _; args ] -> OLoad (!cur_elf, List.map z_of_int (unhex args))
+  | [ "load"; _ ] -> OLoad (!cur_elf, [])
   | [ "price"; k; n; a ] -> OPrice (zx k, zx n, zx a)
   | [ "pricepc"; k; n ] -> OPricePc (zx k, zx n)
   | [ "w8"; a; v ] -> OW8 (zx a, zx v)
@@ -77,6 +80,7 @@ let parse_case (line : string) : case =
   let find k = List.assoc_opt k kvs in
   let tag = match find "tag" with Some v -> Some (zx v) | None -> None in
   cur_script := (match find "sock" with Some v -> script_of v | None -> []);
+  cur_elf := (match find "elf" with Some v -> List.map z_of_int (unhex v) | None -> []);
   let ovf = (find "ovf" = Some "1") in
   let sock = (find "sock" <> None) in
   let s = ref (init_cpu tag ovf sock) in
@@ -116,7 +120,7 @@ let parse_case (line : string) : case =
               s := set_bus { b with b_pin = sset b.b_pin (z_of_int (hx p - 1)) (zx x) } !s
             | _ -> failwith "bad pin")
           (nonempty (split ';' v))
-      | "sock" -> ()
+      | "sock" | "elf" -> ()
       | "ops" -> opstrs := split ',' v; ops := List.map parse_op !opstrs
       | _ -> failwith ("unknown key [" ^ k ^ "]"))
     kvs;
@@ -393,6 +397,31 @@ let ref_entry_case (c : case) : string * string =
            | _ -> ("", "C06=0")))
   | _ -> ("", "C06=0")
 
+(* kind=load: elf::load on a generated file and argument string; the reference is the point-wise expected image and
+   the process environment of Spec/ElfSpec.v (fields read at their ELF32 offsets) *)
+let ref_load (c : case) : string * bool =
+  match c.ops with
+  | [ OLoad (f, args) ] ->
+    let d = wf_elf f args in
+    let x = expected_of f args c.s0.er c.s0.exit_addr in
+    let cells = Hashtbl.create 1024 in
+    List.iter (fun (lo, n) ->
+        let lo = int_of_z lo and n = int_of_z n in
+        for i = lo to lo + n - 1 do
+          if i >= 0 && i < 0x200000 && not (Hashtbl.mem cells i) then begin
+            let v = int_of_z (x.x_dram (z_of_int i)) in
+            Hashtbl.replace cells i v
+          end
+        done)
+      (if d then candidates f args else []);
+    let md = Hashtbl.fold (fun i v acc -> if v <> 0 then (0x400000 + i, v) :: acc else acc) cells [] in
+    let md = List.map (fun (a, v) -> Printf.sprintf "%x:%02x" a v) (List.sort compare md) in
+    let ers = List.init 8 (fun i -> Printf.sprintf "%x" (int_of_z (get_er x.x_er (z_of_int i)))) in
+    let lim = 0x416900 + int_of_z (img_end (ref_phdrs f)) in
+    let mdimg = String.concat ";" md in
+    (Printf.sprintf "res=ok er=%s exit=%x md=%s mdimg=%s imglim=%x" (String.concat "," ers) (int_of_z x.x_exit) (String.concat ";" md) mdimg lim, d)
+  | _ -> ("res=?", false)
+
 let () =
   let inp = Sys.argv.(1) and outp = Sys.argv.(2) in
   let ic = open_in inp and oc = open_out outp in
@@ -435,6 +464,9 @@ let () =
           | "entry" ->
             let (r, d) = ref_entry_case c in
             Printf.fprintf oc "R id=%s %s\nD id=%s %s\n" c.id r c.id d
+          | "load" ->
+            let (r, d) = ref_load c in
+            Printf.fprintf oc "R id=%s %s\nD id=%s C11=%d C12=%d\n" c.id r c.id (if d then 1 else 0) (if d then 1 else 0)
           | "bus" ->
             let (r, d) = ref_bus c in
             Printf.fprintf oc "R id=%s %s\nD id=%s C09=%d\n" c.id r c.id (if d then 1 else 0)
